@@ -86,6 +86,21 @@ def _self_with_partition(I, cls, kind="cond", extra=None, pcls=""):
     return I.alloc(HObj(cls, {"epistemic_state": es})), es
 
 
+def loop_form(paths, head=None):
+    """Is the walk over the layers written as a loop that decrements the index (instead of a self-call on k-1)?  Then
+    the generic step is the loop iteration: returns (index term at the loop head, items the solver holds at the head,
+    loop id, name of the index variable); otherwise (K, [HEAD], None, None)."""
+    head = head or HEAD
+    for p in paths:
+        for ev, Q in iter_events(p.events):
+            if ev.kind == "while.enter" and not Q:
+                idx = [n for n, v in ev.entry.items() if v[0] == "val" and isinstance(v[1], LinV) and v[1].lin == K]
+                sol = [n for n, v in ev.entry.items() if v[0] == "solver" and list(flat(v[3])) == [head]]
+                if len(idx) == 1 and len(sol) == 1:
+                    return F.lin_term(("head", ev.id, idx[0])), [head, ("sym", ("head", ev.id, sol[0]))], ev.id, idx[0]
+    return K, [head], None, None
+
+
 def rec(rep, ex: Explorer, cls: str):
     """Z.layer-assert, Z.tests, Z.decision on `_rec_inference`."""
     qual = f"{cls}._rec_inference"
@@ -100,16 +115,7 @@ def rec(rep, ex: Explorer, cls: str):
     # The walk over the layers is written either as a self-call on k-1 or as a loop that decrements the index.  In the
     # loop form the generic step is the loop iteration: its index is the loop-head value of the index variable (entry
     # value k), the solver holds whatever the head holds (entry content H), and "continue with k-1" is the jump back.
-    Kx, heads, loop_id, idx_name = K, [HEAD], None, None
-    for p in paths:
-        for ev, Q in iter_events(p.events):
-            if ev.kind == "while.enter" and not Q and loop_id is None:
-                idx = [n for n, v in ev.entry.items() if v[0] == "val" and isinstance(v[1], LinV) and v[1].lin == K]
-                sol = [n for n, v in ev.entry.items() if v[0] == "solver" and list(flat(v[3])) == [HEAD]]
-                if len(idx) == 1 and len(sol) == 1:
-                    loop_id, idx_name = ev.id, idx[0]
-                    Kx = F.lin_term(("head", ev.id, idx[0]))
-                    heads = [HEAD, ("sym", ("head", ev.id, sol[0]))]
+    Kx, heads, loop_id, idx_name = loop_form(paths)
     kterm = Kx[0][0][0]
     layer = each_item(layer_fam(Kx), not_falsified)
     base = canon_items(heads + [layer])
@@ -305,7 +311,24 @@ def start_strict(rep, site, paths, prefix, solver_check):
     rep.floor(f"{prefix} strict entry paths", n, 1)
 
 
+_PROG = {}
+
+
 def _index_arg(rc):
+    """The layer index handed to a recursive call: the argument bound to the callee's index parameter (the one annotated
+    `int` / named *index*), not just any integer among the arguments."""
+    prog = _PROG.get("prog")
+    fi = prog.functions.get(rc.data.get("func")) if prog is not None else None
+    if fi is not None:
+        params = [a for a in fi.node.args.posonlyargs + fi.node.args.args]
+        cand = [i for i, a in enumerate(params) if "index" in a.arg or (a.annotation is not None and getattr(a.annotation, "id", None) == "int")]
+        if len(cand) == 1:
+            i = cand[0]
+            args = list(rc.args)
+            if len(args) == len(params) - 1 and params and params[0].arg == "self":
+                args = [None] + args  # summaries of bound calls may omit the receiver
+            v = args[i] if i < len(args) else rc.kwargs.get(params[i].arg)
+            return v.lin if isinstance(v, LinV) else None
     for a in rc.args:
         if isinstance(a, LinV):
             return a.lin
